@@ -574,7 +574,8 @@ class AdjointLinearOperator(LinearOperator):
 
     def _mv(self, x: torch.Tensor) -> torch.Tensor:
         if not self.obj.is_rmv_implemented:
-            raise RuntimeError("The ._rmv of must be implemented to call .H.mv()")
+            # fall back to the adjoint trick of the public method
+            return self.obj.rmv(x)
         return self.obj._rmv(x)
 
     def _rmv(self, x: torch.Tensor) -> torch.Tensor:
